@@ -68,6 +68,13 @@ CLAIMED = {
              "zero). ShapedTensor bookkeeping: all 2-call (3 thorough) reconstrain programs over dims in [-rank,rank], sizes {None,1,2,3}, strict and not: "
              "valid => every constraint holds; incompatible addition refused without side effects; removal never alters data.",
         ref="6/C13"),
+    "C17": dict(
+        text="Relational: Serial / Biclique (sum, mean, prod, min, max, custom; with and without connection/neuron transforms) / RecurrentSerial (T=3, "
+             "feedback synapse with and without memory and bias) outputs, intermediate currents and every component state versus a hand composition of "
+             "separately built, identically parameterised components, for symbolic input spikes and symbolic weights; output shapes == batched shape. "
+             "clear(): k arbitrary steps, clear, T replay steps == fresh layer (3 layer types x delta/single/double exponential synapses x LIF/ALIF, plus "
+             "a delayed connection); parameters and adaptations unchanged by clear.",
+        ref="6/C17"),
 }
 
 REASONS = {}
